@@ -178,6 +178,10 @@ def expectedShape : List String := [
 
 theorem shape_ok : Gen.Election.shape = expectedShape := by rfl
 
+/-- the node's term is written by the three statements the interleaving model takes from the source, each under its guard, and by
+no other statement of the election code (a weaker, more stable obligation than `shape_ok`: it survives a harmless rewrite elsewhere) -/
+theorem term_writes_guarded : Election.badTermWrites Gen.Election.shape = [] := by decide +kernel
+
 /-- **Signature gate**: both inter-node entry points compare the sender's ring signature with their own and
 do nothing for the request when they differ (TopicMaster additionally reports the rejection). -/
 theorem sig_gate : Gen.Election.signatureGates =
